@@ -78,6 +78,28 @@ PROPS = {
         "rule": "Content-Type in 7 values x Accept in {absent, 18 elements, all ordered pairs x 2 separators} x 7 body kinds; channel: every status 200..599 x {text, CAR} body. non-trivial: CAR content type with an Accept header present / non-200 status. distinct: hash of (op,args)",
         "trusted_base": ["model Http.lean mirrors carInbound.Accept, server.Handle and channel.Request by hand"],
     },
+    "C09": {
+        "manifest": {"text": "Theorems on the model of server.Execute + message.Build/Get: C09_one (for EVERY completion order of the per-invocation goroutines - any permutation of the receipts - each invocation of the request has a receipt retrievable by its link, whose ran is that invocation and whose issuer is the server), C09_only_run (nothing is reported for links that were not run), get_build (first stored receipt wins for a repeated link, so exactly one entry per distinct invocation). Partial: the Go memory model, real goroutine interleavings and the unsynchronised first-error variable are runtime behaviour the model cannot exhibit; they are exercised, not proved: batches of 0..64 invocations with mixed outcomes (authorized, unauthorized, unknown ability, zero/two capabilities, duplicates of one link) against a real server whose handlers, checker and resolvers yield/sleep from the seed, GOMAXPROCS in {1,2,4,16}, 1-4 concurrent identical requests to one server, all under the race detector in crash-isolating workers (a data race or a crash on a goroutine is attributed to the batch that caused it).", "design_ref": "5.9", "note": VALIDATOR_NOTE + "; schedules are sampled by perturbation, not enumerated; the atomic-append abstraction of Execute (lock around the append) is read from the code by hand"},
+        "obligations": ob("UcantoModel.Props.C09", "Msg.C09_one", "Msg.C09_only_run", "Msg.get_build", "Msg.values_of_fold", "Msg.C09_isolated"),
+        "race": True, "mismatch_is_violation": True,
+        "rule": WORLD_RULE + "; batch sizes {0,1,2,3,5,8,13,21,34,64} round robin, GOMAXPROCS in {1,2,4,16}, 25% with 2-4 concurrent requests. non-trivial: batch of at least 2. distinct: hash of (op,args)", "trusted_base": VALIDATOR_TRUSTED,
+    },
+    "C11": {
+        "manifest": {"text": "Theorems (the part that is this repository's own logic): C11_terminates (on well-founded proof DAGs the mutually recursive Claim/Validate/VerifySession/Authorize search finishes within an explicit fuel bound), attCandidates_safe (the token under verification and capability-less siblings are never candidate attestations), C11_pinned_divergence (machine-checked record: with the pinned candidate filter a lone non-key-issued ucan/attest token runs out of every fuel - the stack overflow), C11_did_string_total / C11_sig_total (no slicing past short DID / signature bytes, with the pinned panics recorded), C11_handle_total, C11_receipts_kept. Partial: third-party decoders (go-car header CBOR, bindnode, dag-cbor/json) are not modelled. Exploration in crash-isolating worker processes (a goroutine panic, stack overflow or fatal error kills only the worker and is attributed to the request): every one of 39 field malformations (issuer, audience, signature, capabilities, caveats, proofs, times, version, facts, nonce, whole block replaced or bit-flipped) at every chain position, singly and in pairs, inside otherwise valid CAR requests that also carry a clean invocation; self-attesting and capability-less adversarial tokens; random byte edits of valid requests; the byte-level DID and signature functions exhaustively. Oracle: outcome is a status or an error value, and a 200 response holds a receipt for every invocation of the request.", "design_ref": "5.11", "note": "trusted: Lean kernel; the model makes the repository's own index/slice/nil/recursion sites explicit - a site the model does not name is covered only by the exploration; third-party decoding is outside the model"},
+        "obligations": ob("UcantoModel.Props.C11", "C11.C11_terminates", "C11.attCandidates_safe", "C11.C11_pinned_divergence", "C11.C11_fixed_no_self", "C11.C11_did_string_total",
+                          "C11.C11_did_string_pinned_panics", "C11.C11_sig_total", "C11.C11_handle_total", "C11.C11_receipts_kept")
+                       + ob("UcantoModel.Props.Termination", "V.terminates_all"),
+        "mismatch_is_violation": True,
+        "rule": "structured: world (depth 0-4, sessions, decoys) + one clean invocation; malformation kind round robin over 39 kinds at a random token position, 1/3 with a second malformation on the same or another token; 24 adversarial special worlds; random byte edits (1-4) of valid request bytes; exhaustive byte strings (length <=3 quick, <=5 thorough) through did.Decode / signature Code/Size/Raw. every case non-trivial except the empty byte string. distinct: hash of (op,args)",
+        "trusted_base": ["Model/Validator.lean, Did.lean, Http.lean, Message.lean (hand-written); crash-isolating workers observe the real process"],
+    },
+    "C15": {
+        "manifest": {"text": "Theorems on the message model: C15_get_no_report / C15_empty_batch (a message without a report - the reply to an empty batch - answers every Get with not-found and lists no receipts), C15_get_sound, C15_pinned_panics (record of the pinned nil dereference). Partial: third-party decoders are not modelled. Exploration in crash-isolating workers: client.Execute over a channel that answers with a chosen status and one of 20 body kinds (empty batch, empty / foreign-keyed report, receipts with bare ran, missing receipt or invocation blocks, a non-receipt block as receipt, absent / malformed issuer, empty signature, effects+meta+proofs, report naming keys it has no value for, CAR whose root is not a message, no roots, two roots, garbage, empty, truncated, bit-flipped), then every lookup a caller can make: Get for present and absent links, Blocks, Receipts, ReceiptReader.Read and every accessor of every receipt, and message.Build with it. Oracle: error or values, never a panic.", "design_ref": "5.15", "note": "trusted: Lean kernel; hand-written message model; bindnode / dag-cbor / go-car decoding of response bytes is outside the model and only explored"},
+        "obligations": ob("UcantoModel.Props.C09", "Msg.C15_get_no_report", "Msg.C15_empty_batch", "Msg.C15_pinned_panics", "Msg.C15_get_sound", "Msg.get_build"),
+        "mismatch_is_violation": True,
+        "rule": "20 response kinds x random status from {200,201,204,301,400,404,500,503} x seed; every case non-trivial; distinct: hash of (op,args)",
+        "trusted_base": ["Model/Message.lean (hand-written)"],
+    },
     "C12": {
         "manifest": {"text": "Theorems over all byte strings and any hash table H: C12_integrity / C12_integrity_decode (every block the decoder delivers - from valid, corrupted, truncated, spliced or arbitrary input - parses as a CID with nothing after it whose own multihash matches the block's bytes), C12_mismatch_is_error (a section whose bytes do not match its CID yields an error item, never a block), next_none_iff (the archive can only end cleanly on a section boundary), parseCid_split, and the varint round trips readStd_encode / readMf_encode (all n below 2^64 / 2^63). Correspondence at byte level: the Lean model re-encodes every generated archive (bytes must equal car.Encode's) and decodes every truncation point and every single-byte corruption (xor 01, 80, ff at every position) of it, plus splices and arbitrary inputs; go-car's CBOR header parser is modelled for the canonical header form only (elsewhere the model abstains on the header and still predicts the blocks). Independent oracle in the harness: every delivered block is re-hashed against its own CID, a truncation off a section boundary must produce an error.", "design_ref": "5.12", "note": "trusted: Lean kernel; hand-written model of car.Decode/Encode, LdRead/ReadNode, CidFromReader, Prefix.Sum (Model/Car.lean, Model/Varint.lean); SHA-256 is executable Lean validated against Go on every archive, other registered hash functions are known to the model only by their code (a placeholder digest), go-car's header CBOR decoder is modelled for the canonical form only"},
         "obligations": ob("UcantoModel.Props.C12", "Car.C12_integrity", "Car.C12_integrity_decode", "Car.C12_mismatch_is_error", "Car.next_none_iff", "Car.parseCid_split", "Car.next_block_valid")
